@@ -678,6 +678,26 @@ class ExcFlow:
             e = Event('UnboundLocalError', 'unbound', q, mod.where(node), f'local `{name}` may be read before assignment')
             if locally_caught(mod, fn, node, 'UnboundLocalError'):
                 e.discharged = 'enclosing handler'
+            else:
+                # the definite-assignment analysis is path-insensitive: when the read stands under a test that mentions a name which
+                # also decides whether the assignment runs, the two may be correlated (`if a: x = ...` ... `if k is not a and x`) -
+                # no verdict; the texts compiled by interpretation reach an unbound read as a raised UnboundLocalError
+                def guards(n_):
+                    names_, cur_, child_ = set(), mod.parents.get(n_), n_
+                    while cur_ is not None and cur_ is not fn:
+                        if isinstance(cur_, (ast.If, ast.IfExp, ast.While)) and child_ is not cur_.test:
+                            names_ |= {x.id for x in ast.walk(cur_.test) if isinstance(x, ast.Name)}
+                        if isinstance(cur_, ast.BoolOp):
+                            i_ = next((k for k, v_ in enumerate(cur_.values) if v_ is child_), 0)
+                            for v_ in cur_.values[:i_]:
+                                names_ |= {x.id for x in ast.walk(v_) if isinstance(x, ast.Name)}
+                        child_, cur_ = cur_, mod.parents.get(cur_)
+                    return names_
+                stores = [x for x in walk_no_nested(fn) if isinstance(x, ast.Name) and x.id == name and isinstance(x.ctx, ast.Store)]
+                gs = set().union(*[guards(x) for x in stores]) if stores else set()
+                common = (gs & guards(node)) - {name}
+                if common:
+                    e.discharged = f'UNDECIDED: the assignment and the read both stand under tests on {sorted(common)} (possibly correlated)'
             out.append(e)
         return out
 
